@@ -98,6 +98,9 @@ pub struct Profile {
     /// import prefixes declared on the complexType nodes that use them instead of on the schema root
     #[serde(default)]
     pub nested_xmlns: bool,
+    /// user-defined components named like XSD builtins (duration, language, dateTime, ...)
+    #[serde(default)]
+    pub builtin_like_names: bool,
 }
 
 fn yes() -> bool {
@@ -147,6 +150,7 @@ impl Profile {
             elem_of_builtin: true,
             seq_in_choice: false,
             nested_xmlns: true,
+            builtin_like_names: true,
         }
     }
     /// switch a feature off by its tag name; returns false for an unknown tag
@@ -432,6 +436,19 @@ impl B<'_> {
             return Name::raw(STD_TYPE_NAMES[(raw.special as usize / 3) % STD_TYPE_NAMES.len()]);
         } else if raw.special != 0 && type_like && !self.p.std_names && raw.special % 3 == 0 {
             self.stats.mask("std_names");
+        }
+        // a user-defined component named like an XSD builtin (referred to as tns:duration)
+        // (only in files that write their own QNames with a prefix: an unprefixed `date` is the builtin for zeep,
+        // which does not track the default namespace - see DESIGN.md section 7)
+        if type_like && self.p.builtin_like_names && k % 7 == 3 && !self.files[file].own_prefix.is_empty() {
+            const LIKE: [&[&str]; 11] = [&["duration"], &["language"], &["date", "time"], &["time"], &["date"], &["decimal"], &["integer"], &["long"], &["short"], &["byte"], &["double"]];
+            let words = LIKE[(file * 5 + k + raw.extra.len()) % LIKE.len()];
+            let name = Name::canonical(words, Style::LowerCamel);
+            if !self.taken.contains(&name.snake()) {
+                self.taken.insert(name.snake());
+                self.stats.feat("name.like-a-builtin");
+                return name;
+            }
         }
         let mut words = vec![FIRST[(file * 13 + k) % FIRST.len()].to_string()];
         for e in &raw.extra {
@@ -1294,7 +1311,10 @@ fn collide(m: &mut Model, raw: &RawModel, stats: &mut BuildStats) {
         if m.files[i].ns == m.files[j].ns {
             continue;
         }
-        let donors: Vec<Name> = m.files[i].comps.iter().filter(|c| struct_like(c)).map(|c| c.name.clone()).collect();
+        // (names like those of builtins stay where they are: a file that writes unprefixed QNames must
+        // not get one)
+        let builtin_like = |n: &Name| BUILTINS.iter().any(|b| b.eq_ignore_ascii_case(&n.words.concat()));
+        let donors: Vec<Name> = m.files[i].comps.iter().filter(|c| struct_like(c) && !builtin_like(&c.name)).map(|c| c.name.clone()).collect();
         if donors.is_empty() {
             continue;
         }
@@ -1359,6 +1379,8 @@ fn collide(m: &mut Model, raw: &RawModel, stats: &mut BuildStats) {
             targets.sort();
             targets.dedup();
             targets.retain(|q| q.file != fj && snapshot.files[q.file].ns != snapshot.files[fj].ns && struct_like(snapshot.comp(*q)));
+            // names like those of builtins stay where they are (see above)
+            targets.retain(|q| !BUILTINS.iter().any(|b| b.eq_ignore_ascii_case(&snapshot.comp(*q).name.words.concat())));
             let Some(t) = targets.get(sel % targets.len().max(1)).copied() else { continue };
             let tname = snapshot.comp(t).name.clone();
             let taken: Vec<String> = m.files[fj].comps.iter().map(|c| c.name.pascal()).collect();
